@@ -51,5 +51,18 @@ Script11Next ==
         [] steps = 9 -> DbReindex({})
         [] OTHER -> FALSE
 Script11Spec == InitIndexed /\ idle = 0 /\ [][Script11Next]_<<vars, idle>>
+\* Directed scenario for the refusal / whitelist protocol (C08): a page breaks and is whitelisted with `create -f`, another
+\* page breaks (or is edited), and the next command must refuse exactly when a broken page is not whitelisted.
+AnyCmd == DbCreate(FALSE) \/ DbCreateRefused \/ DbReindex({}) \/ DbReindexRefused({})
+Script08Next ==
+  /\ idle' = idle
+  /\ CASE steps = 0 -> \E p \in Pages : BreakPage(p)
+        [] steps = 1 -> DbCreate(TRUE)
+        [] steps = 2 -> (\E p \in Pages : BreakPage(p)) \/ (\E p \in Pages : EditBody(p, 1))
+        [] steps = 3 -> AnyCmd
+        [] steps = 4 -> (\E p \in Pages : FixPage(p)) \/ (\E p \in Pages : BreakPage(p))
+        [] steps = 5 -> AnyCmd
+        [] OTHER -> FALSE
+Script08Spec == InitIndexed /\ idle = 0 /\ [][Script08Next]_<<vars, idle>>
 ScriptSpec == InitIndexed /\ idle = 0 /\ [][ScriptNext]_<<vars, idle>>
 =============================================================================
